@@ -137,6 +137,19 @@ def specs(ctx, n):
             calls = [dict(n_iter=n0, memory=calls[0]["memory"])] + calls
         out.append(dict(name=name, space=space, table=table, script=script, calls=calls, seed=rng.randrange(10 ** 6),
                         init=gen.gen_initialize(rng, space), scalar=rng.choice(["float", "np"])))
+    # population optimizers with a small population and few initial positions, a score sequence that improves and then stalls: the rule
+    # fires well inside the iteration phase, where each member's own tracker (not the driver) sees the scores
+    for rd in range(2 if ctx.quick else 8):
+        for name in gen.POPULATION:
+            space, meta = gen.gen_space(rng, sizes=(3, 5, 8), max_points=200, ndims=2)
+            table, _ = gen.gen_table(rng, space)
+            n_iter = rng.choice([16, 20])
+            cut = rng.randrange(5, 9)
+            script = [(float(j), None) for j in range(cut)] + [(float(cut - 1) - rng.choice([0, 1]), None)] * (n_iter - cut)
+            nn = rng.choice([2, 3, 4])
+            es = cfg_dict(nn, None, None, False)
+            out.append(dict(name=name, space=space, table=table, script=script, calls=[dict(n_iter=n_iter, early_stopping=es, memory=False)],
+                            seed=rng.randrange(10 ** 6), init={"random": 2}, cfg=dict(population=4), scalar="float"))
     return out
 
 
@@ -207,7 +220,8 @@ def pre_build(ctx):
 def run(ctx):
     import gen_units
     gen_units.g_unit(ctx, "translate_driver")
-    k_unit(ctx)
+    import common as _common
+    _common.guarded(ctx, "K-unit", k_unit, ctx)
     d_unit_and_monitor(ctx, 72 if ctx.quick else 500)
 
 
